@@ -124,3 +124,44 @@ Definition ortho_basis (d G : list R) : matrix := householder (length d) (vmul G
 (** wiring of the DAG nodes (time_reparametrized.py) *)
 Definition mixing_matrix (basis betas : matrix) : matrix := transpose (matmul basis betas).
 Definition space_shifts (sources mixing : matrix) : matrix := matmul sources mixing.
+
+(** ---- all branches of [compute_orthonormal_basis] (extension): scalar / diagonal / full metric, any [strip_col] ---- *)
+
+(** [G @ d] for a 2-D [G] and a 1-D [d] ([torch.matmul], matrix-vector): entry i = row_i(G) · d *)
+Definition matvec (G : matrix) (d : list R) : list R := map (fun r => dot r d) G.
+
+(** Householder reflection sending [D] to [alpha e_j]; column [j] is dropped.  [householder n D] above is
+    [householder_at 0 n D] (by computation). *)
+Definition householder_at (j n : nat) (D : list R) : matrix :=
+  let ej := vset (vzeros_like D) j 1 in
+  let alpha := (- sign (vget D j)) * vnorm D in
+  let u := vsub D (vscale alpha ej) in
+  let v := vdivs u (vnorm u) in
+  let Q := msub (eye n) (outer (vscale 2 v) v) in
+  mcat_cols (cols_before j Q) (cols_from (j + 1) Q).
+
+(** the direction the columns are made orthogonal to (canonical inner product), per branch of the code *)
+Definition metric_dir_0d (g : R) (d : list R) : list R := vscale g d.          (* G_metric.item() * dgamma_t0 *)
+Definition metric_dir_1d (G d : list R) : list R := vmul G d.                  (* G_metric * dgamma_t0 *)
+Definition metric_dir_2d (G : matrix) (d : list R) : list R := matvec G d.     (* G_metric @ dgamma_t0 *)
+
+Definition ortho_basis_0d (j : nat) (d : list R) (g : R) : matrix := householder_at j (length d) (metric_dir_0d g d).
+Definition ortho_basis_1d (j : nat) (d G : list R) : matrix := householder_at j (length d) (metric_dir_1d G d).
+Definition ortho_basis_2d (j : nat) (d : list R) (G : matrix) : matrix := householder_at j (length d) (metric_dir_2d G d).
+
+(** the guards of each branch that raise (linalg.py:72-93) and the assertion on strip_col (:104) *)
+Definition ortho_pre_0d (j : nat) (d : list R) (g : R) : Prop := 0 < g /\ (j < length d)%nat.
+Definition ortho_pre_1d (j : nat) (d G : list R) : Prop :=
+  Forall (fun x => 0 < x) G /\ length G = length d /\ (j < length d)%nat.
+Definition ortho_pre_2d (j : nat) (d : list R) (G : matrix) : Prop :=
+  (length G = length d /\ Forall (fun r => length r = length d) G) /\ (j < length d)%nat.
+
+(** the inner product of the docstring, equation (1): <x, y>_G = xᵀ G y, per representation of G *)
+Definition inner_0d (g : R) (x y : list R) : R := dot x (vscale g y).
+Definition inner_1d (G x y : list R) : R := dot x (vmul G y).
+Definition inner_2d (G : matrix) (x y : list R) : R := dot x (matvec G y).
+
+(** a full metric is positive definite on the vectors of dimension n (the code does not check it: "no check on positivity
+    of matrix to remain light"); hypothesis of the statements about every non-zero direction *)
+Definition pos_def_2d (G : matrix) (n : nat) : Prop :=
+  forall x : list R, length x = n -> (exists i, nth i x 0 <> 0) -> 0 < inner_2d G x x.
